@@ -96,6 +96,14 @@ func goMapDefineOwnProperty(obj *object, name string, descriptor property, throw
 	if !descriptor.isDataDescriptor() {
 		return obj.runtime.typeErrorResult(throw)
 	}
+	if goObj.value.IsNil() {
+		// Writing to a nil map panics in Go. A map reached through an addressable place (a field of a
+		// bridged *struct) is allocated there; one handed over by value cannot be replaced for the Go side.
+		if !goObj.value.CanSet() {
+			panic(obj.runtime.panicTypeError("cannot set property %q of a nil Go map", name))
+		}
+		goObj.value.Set(reflect.MakeMap(goObj.value.Type()))
+	}
 	goObj.value.SetMapIndex(goObj.toKey(name), goObj.toValue(descriptor.value.(Value)))
 	return true
 }
